@@ -32,9 +32,12 @@ RULE = (
     'the spelling of the second (2 forms), its own spelling, or an undeclared reference-like text; [literal] literal '
     'words colliding with names (`BA`, `stage0.BA/f.txt`, `-A`, `A.ref` ...) around the references; [methods] '
     'file:ref, stdout :output and a declared-but-unspelled :copy on every pair; [direct] `data/f.txt:ref|output` next '
-    'to `Bdata/f.txt`; [special-value] an :output reference (file, or the stdout of a dedicated producer) whose value '
-    'is one of 18 texts special to replacement machinery (backslash escapes and group references, $1/&, {0}, regex and '
-    'shell metacharacters, TAB, double space) alone, as key=<ref>, between literals and next to a second reference in '
+    'to `Bdata/f.txt`; [direct-suffix] a direct reference whose path ends with a producer name (`input/<n>:ref|output`, '
+    '`data/<n>/f.txt:ref|output`) next to the matching reference to component <n> (either stage, every legal spelling), '
+    'both declaration orders and both token orders; [special-value] an :output reference (file, or the stdout of a dedicated producer) whose value '
+    'is one of 30 texts special to replacement machinery or to text-mode reading (backslash escapes and group '
+    'references, $1/&, {0}, regex and shell metacharacters, TAB, double/leading/trailing space, CR LF / lone CR / '
+    'embedded and leading LF, FF VT FS NEL LS PS, a leading BOM; files written byte-exactly) alone, as key=<ref>, between literals and next to a second reference in '
     'both declaration orders; [repeating-stdout] a file-less :output reference to a REPEATING producer for every set '
     'of archived streams streams/<n>.stdout from {every window of 1-4 consecutive repetitions over 0..13, windows '
     'straddling 99/100 and 999/1000, 8 non-contiguous sets} (plus a newer .stderr stream and a plain out.stdout as '
@@ -109,11 +112,33 @@ def all_spellings(ref):
     return sorted({G.spell(ref, 'abs'), G.spell(ref, 'rel')})
 
 
-def collision_kinds(case, vals=None):
-    """Which collision mechanisms the *case* (input only) contains. vals=None: :ref values cannot contain references."""
+def known_order(case):
+    """Position of every declared reference in the order in which the accepted known defects (sequential replacement)
+    process them: all direct references first, then the component references, each group in declaration order.
+    Only used to decide whether a wrong observation has the shape of a KNOWN finding, never to judge a case."""
+    refs = case['refs']
+    seq = [i for i, r in enumerate(refs) if r[0] is None] + [i for i, r in enumerate(refs) if r[0] is not None]
+    return {r: n for n, r in enumerate(seq)}
+
+
+def has_both_spellings(case, r):
+    return case['refs'][r][0] is not None and \
+        {t[2] for t in case['tokens'] if t[0] == 'r' and t[1] == r} == {'rel', 'abs'}
+
+
+def contained_is_known_shape(case, pos, r, how, r2):
+    """the known contained-spelling defect corrupts a token of r with r2's value only if r2 is replaced before r, or
+    if that token is a relative occurrence the known mixed-spelling defect left behind"""
+    return pos[r2] < pos[r] or (how == 'rel' and has_both_spellings(case, r))
+
+
+def collision_kinds(case, vals=None, known_shapes_only=False):
+    """Which collision mechanisms the *case* (input only) contains. vals=None: :ref values cannot contain references.
+    known_shapes_only: only in the constellations in which the accepted known defects can produce them."""
     if vals is None:
         vals = case_values(case, '/INST')
     refs = case['refs']
+    pos = known_order(case)
     kinds = set()
     toks = [t for t in case['tokens'] if t[0] == 'r']
     for t in toks:
@@ -122,10 +147,14 @@ def collision_kinds(case, vals=None):
         for r2, ref2 in enumerate(refs):
             if r2 == r or ref2[3] not in SUBST:
                 continue
+            if known_shapes_only and not contained_is_known_shape(case, pos, r, t[2], r2):
+                continue
             if any(S2 in S and S2 != S for S2 in all_spellings(ref2)):
                 kinds.add('contained-spelling')
         if refs[r][3] == 'output':
             for r2, ref2 in enumerate(refs):
+                if known_shapes_only and not pos[r2] > pos[r]:
+                    continue
                 if r2 != r and ref2[3] in SUBST and any(S2 in vals[r] for S2 in all_spellings(ref2)):
                     kinds.add('rescan')
     for r in set(t[1] for t in toks):
@@ -139,6 +168,7 @@ def explain(case, vals, observed):
     Returns (sig, details). sig is '+'-joined sorted kinds, or 'unexplained'."""
     refs = case['refs']
     toks = case['tokens']
+    pos = known_order(case)
     alts = []
     for i, t in enumerate(toks):
         if t[0] == 'l':
@@ -153,14 +183,16 @@ def explain(case, vals, observed):
                 continue
             for S2 in all_spellings(ref2):
                 if S2 in S and S2 != S:
-                    a.append((pre + S.replace(S2, vals[r2]) + post, 'contained-spelling',
-                              '%s inside token %s' % (S2, S)))
+                    kind = 'contained-spelling' if contained_is_known_shape(case, pos, r, how, r2) else \
+                        'contained-spelling-of-reference-replaced-later'      # NOT a known shape
+                    a.append((pre + S.replace(S2, vals[r2]) + post, kind, '%s inside token %s' % (S2, S)))
                 elif S2 == S:
                     # the relative spelling of a same-named producer of another stage: NOT a known shape
                     a.append((pre + vals[r2] + post, 'value-of-same-named-producer-of-other-stage',
                               '%s taken for %s' % (S, G.spell(ref2, 'abs'))))
                 if refs[r][3] == 'output' and S2 in vals[r]:
-                    a.append((pre + vals[r].replace(S2, vals[r2]) + post, 'rescan',
+                    kind = 'rescan' if pos[r2] > pos[r] else 'rescan-by-reference-replaced-earlier'  # 2nd: NOT known
+                    a.append((pre + vals[r].replace(S2, vals[r2]) + post, kind,
                               '%s inside the value of %s' % (S2, S)))
         if how == 'rel' and any(u[0] == 'r' and u[1] == r and u[2] == 'abs' for u in toks):
             a.append((pre + S + post, 'mixed-spelling', '%s left because its absolute spelling also occurs' % S))
@@ -270,8 +302,8 @@ def judge_cases(col, cases, on_fail, ncore, parent_dir):
             pdir = os.path.join(inst, 'stages', 'stage%s' % stage, name)
             if not os.path.isdir(pdir):
                 raise HarnessError('producer working directory %s does not exist in the instance' % pdir)
-            with open(os.path.join(pdir, file), 'w') as f:
-                f.write(text)
+            with open(os.path.join(pdir, file), 'wb') as f:      # bytes: no newline translation by the harness
+                f.write(text.encode('utf-8'))
         for k, idx in streams.items():
             stage, name = k.split('/', 1)
             sdir = os.path.join(inst, 'stages', 'stage%s' % stage, name, 'streams')
@@ -282,6 +314,18 @@ def judge_cases(col, cases, on_fail, ncore, parent_dir):
             # decoys: a newer stream of the other kind, and the (unused) plain out.stdout written above
             with open(os.path.join(sdir, '%d.stderr' % (max(idx) + 1)), 'w') as f:
                 f.write('DECOY_STDERR')
+        for c in cases:
+            for stage, name, file, method, _ in c['refs']:
+                if stage is None:
+                    # direct reference: <instance>/<folder>/<file> with known contents (a directory if it has no suffix
+                    # and is only used as a path is fine too, but a file serves :ref and :output alike)
+                    path = os.path.join(inst, name, file)
+                    if not os.path.isdir(os.path.join(inst, name)):
+                        raise HarnessError('the instance has no top-level folder %s' % name)
+                    if not os.path.exists(path):
+                        os.makedirs(os.path.dirname(path), exist_ok=True)
+                        with open(path, 'wb') as f:
+                            f.write(G.default_content(None, name, file).encode('utf-8'))
         if not os.path.isfile(os.path.join(inst, 'data', G.FILE)):
             raise HarnessError('data/%s was not copied to the instance' % G.FILE)
         nodes = exp.experimentGraph.graph.nodes
@@ -434,7 +478,7 @@ def _shape_ok(f, kind):
 
 def _sel_kind(kind):
     def sel(f):
-        return f.get('sig') == kind and kind in collision_kinds(f['case']) and _shape_ok(f, kind)
+        return f.get('sig') == kind and kind in collision_kinds(f['case'], known_shapes_only=True) and _shape_ok(f, kind)
     return sel
 
 
@@ -442,7 +486,7 @@ def _sel_combined(f):
     parts = (f.get('sig') or '').split('+')
     if len(parts) < 2 or any(p not in KINDS for p in parts):
         return False
-    have = collision_kinds(f['case'])
+    have = collision_kinds(f['case'], known_shapes_only=True)
     return all(p in have and _shape_ok(f, p) for p in parts)
 
 
